@@ -258,3 +258,63 @@ ANCHORS = [('swh/model/git_objects.py', 'revision_git_object'),
            ('swh/model/model.py', 'Revision.check_author'),
            ('swh/model/model.py', 'Revision.check_committer'),
            ('swh/model/model.py', 'tuplify_extra_headers')]
+
+
+def pre_checks(ctx):
+    """validation of the spec-level definition against independent implementations of git's commit format
+    (not a theorem): on the subset git can express - author and committer with integer dates and canonical
+    offsets, well-formed header keys - dulwich parses the library's payload into the same fields and re-serialises
+    it byte for byte, and (thorough tier) `git hash-object -t commit` / `git cat-file` agree on id and payload"""
+    import random
+    import subprocess
+    import tempfile
+    from swh.model import git_objects
+    out = []
+    try:
+        from dulwich.objects import Commit
+    except Exception:
+        return out
+    rng = random.Random(ctx.seed + 303)
+    n = 60 if ctx.tier == "quick" else 3000
+    gitdir = None
+    if ctx.tier == "thorough":
+        gitdir = tempfile.mkdtemp(prefix="c03git")
+        subprocess.run(["git", "init", "-q", "--bare", gitdir], check=True)
+    try:
+        for _ in range(n):
+            def date():
+                h, m = rng.randrange(0, 14), rng.choice([0, 30, 45])
+                return [rng.randrange(0, 2 ** 33), 0, (rng.choice(["+", "-"]) + "%02d%02d" % (h, m)).encode().hex()]
+            extra = [[rng.choice([b"gpgsig", b"x-multi", b"x-custom", b"encoding"]).hex(),   # not mergetag: dulwich parses its value as a tag
+                      rng.choice([b"v", b"line1\nline2", b"-----BEGIN-----\n\nab\n-----END-----", b"UTF-8"]).hex()]
+                     for _ in range(rng.choice([0, 0, 1, 2]))]
+            if len({e[0] for e in extra}) < len(extra):
+                extra = extra[:1]
+            c = {"message": rng.choice([b"", b"subject\n\nbody\n", b"x"]).hex(), "author": b"A U Thor <a@example.org>".hex(),
+                 "date": date(), "committer": b"C O Mitter <c@example.org>".hex(), "committer_date": date(),
+                 "directory": bytes(rng.randrange(256) for _ in range(20)).hex(),
+                 "parents": [bytes(rng.randrange(256) for _ in range(20)).hex() for _ in range(rng.choice([0, 1, 2, 3]))],
+                 "extra": extra, "legacy": False, "synthetic": False}
+            r = _build(c)
+            man = git_objects.revision_git_object(r)
+            payload = man[man.index(b"\x00") + 1:]
+            dc = Commit.from_string(payload)
+            got = (dc.tree, list(dc.parents), dc.author, dc.author_time, dc.committer, dc.commit_time, dc.message)
+            want = (c["directory"].encode(), [p.encode() for p in c["parents"]], bytes.fromhex(c["author"]), c["date"][0],
+                    bytes.fromhex(c["committer"]), c["committer_date"][0], bytes.fromhex(c["message"]))
+            if got != want or dc.as_raw_string() != payload or dc.id.decode() != r.id.hex():
+                out.append(("spec-validation:dulwich-commit", "dulwich parses/re-serialises the payload differently: %r vs %r" % (got, want)))
+                break
+            if gitdir:
+                p = subprocess.run(["git", "--git-dir", gitdir, "hash-object", "-t", "commit", "-w", "--stdin", "--literally"],
+                                   input=payload, stdout=subprocess.PIPE, stderr=subprocess.PIPE)
+                if p.returncode == 0:
+                    gid = p.stdout.decode().strip()
+                    back = subprocess.run(["git", "--git-dir", gitdir, "cat-file", "commit", gid], stdout=subprocess.PIPE).stdout
+                    if gid != r.id.hex() or back != payload:
+                        out.append(("spec-validation:git-commit", "git hash-object/cat-file disagree for %r" % c))
+                        break
+    finally:
+        if gitdir:
+            subprocess.run(["rm", "-rf", gitdir])
+    return out
